@@ -216,3 +216,40 @@ def check_duplicate_test(ctx, F, rule="E-VNM.dup"):
                             "renamed (or not on the `differs` edge): a name owned by another variable is accepted, two variables "
                             "share one name and name_to_var / var_name are no longer inverse"))
     return 1
+
+
+def check_key_type(ctx, F, rule="E-VNM.key"):
+    """`VarNameMap::index` is a `HashMap<Unowned<str>, VarNo>` that is probed with freshly boxed names and with `&str`
+    (through `Borrow<str>`).  Both only work when `Unowned<T>` compares and hashes *by content*: its `PartialEq` and
+    `Hash` are hand-written (a derive would compare / hash the wrapped pointer) and go through the double deref
+    `**self`; `Borrow` hands out the same content."""
+    base = "oxidd_core::util::var_name_map::unowned::"
+    imps = {}
+    for r in F.impls:
+        if r.get("self", "").startswith(base + "Unowned") and r.get("trait") in ("std::cmp::PartialEq", "std::hash::Hash"):
+            imps.setdefault(r["trait"], []).append(r)
+    n = 0
+    for tr, fn_ in (("std::cmp::PartialEq", "eq"), ("std::hash::Hash", "hash")):
+        n += 1
+        rs = imps.get(tr, [])
+        short = tr.rsplit("::", 1)[-1]
+        ok = len(rs) == 1 and not rs[0].get("exp")
+        detail = "hand-written impl that looks through the pointer"
+        if not ok:
+            detail = "%s for Unowned<T> is %s: keys are compared / hashed by address, so a freshly boxed name never matches a " \
+                     "stored one and duplicate names are accepted" % (short, "derived" if rs and rs[0].get("exp") else "missing")
+        else:
+            fid = rs[0]["id"] + "::" + fn_
+            h = F.hir.get(fid)
+            derefs = 0
+            if h:
+                from lib import hirutil as H
+                for x in H.walk(h["body"]):
+                    if x.get("k") == "un" and x.get("o") == "*" and (x.get("e") or {}).get("k") == "un" and x["e"].get("o") == "*":
+                        derefs += 1
+            need = 2 if fn_ == "eq" else 1
+            if not h or derefs < need:
+                ok = False
+                detail = "%s::%s does not operate on the pointee (`**self`)" % (short, fn_)
+        ctx.ob(rule, "%s:%s" % (rule, short), ok, "Unowned<T> (key type of VarNameMap::index) %s: %s" % (short, detail))
+    return n
